@@ -7,7 +7,7 @@
 From Coq Require Import ZArith List Bool.
 From VBase Require Import MachInt.
 From VModel Require Import Merkle.
-From VProofs Require Import MerkleBase MerkleSingle MerkleIdx MerkleBatch MerkleTotal MerkleBind MerkleRound MerkleExamples.
+From VProofs Require Import MerkleBase MerkleSingle MerkleIdx MerkleBatch MerkleTotal MerkleBind MerkleRound MerkleFrom MerkleExamples.
 Import ListNotations.
 Open Scope Z_scope.
 
@@ -196,20 +196,31 @@ Theorem C10_into_paths_spec : forall (t : mtree D) (d : nat) indexes,
             mapM (mt_prove D t) indexes = Ok (map (hpath D d0 t d) indexes).
 Proof. exact (fun t d indexes WF Hd => into_paths_spec_tree D D_eqb D_eqb_spec d0 merge t d WF Hd indexes). Qed.
 
-(* from_into_roundtrip — FULL STATEMENT, NOT PROVED for all depths (tested: correspondence + falsifier):
-     forall t idx (guards of C10_batch_complete), exists p paths,
-       mt_prove_batch t idx = Ok p /\ into_paths p idx = Ok paths /\ from_paths paths idx = Ok p.
-   By C10_into_paths_spec it is equivalent to  from_paths (map (prove t) idx) idx = Ok (prove_batch t idx);
-   what is missing is the simulation of from_paths' loops (over sorted (index, path) entries) by
-   prove_batch's loops (over normalized index pairs).
-   PROVED (bounded, by exhaustive evaluation in the kernel VM): the statement for the free merge
-   (digests = binary terms over leaf symbols, merge = term constructor), trees with 2, 4, 8 distinct
-   symbolic leaves, every duplicate-free non-empty position list in every order for 2 and 4 leaves,
-   and for 8 leaves every duplicate-free list of <= 3 positions in every order plus every non-empty
-   subset ascending and descending (978 lists, [roundtrip_cases]). *)
+(* from_paths_of_proves: for every well-formed tree of depth 1..62 and every non-empty duplicate-free
+   in-range list of <= 255 positions IN ANY ORDER, re-compressing the individual paths prove t i (given in
+   the order of the position list) with the repaired from_paths yields exactly prove_batch t idx: same
+   leaves (in the caller's order), same node vectors, same depth. *)
+Theorem C10_from_paths_of_proves : forall (t : mtree D) (d : nat) indexes,
+  wf_tree D d0 merge d t -> (d <= 62)%nat ->
+  indexes <> [] -> zlen indexes <= 255 -> NoDup indexes -> (forall i, In i indexes -> 0 <= i < 2 ^ Z.of_nat d) ->
+  exists p paths, mapM (mt_prove D t) indexes = Ok paths /\ mt_prove_batch D d0 t indexes = Ok p /\
+                  from_paths D d0 paths indexes = Ok p.
+Proof. exact (fun t d indexes WF Hd => from_paths_of_proves D d0 merge t d WF Hd indexes). Qed.
+
+(* from_into_roundtrip: an honest batch opening decompresses (into_paths) and re-compresses (from_paths)
+   to itself, for all depths and all orders of the position list. *)
+Theorem C10_from_into_roundtrip : forall (t : mtree D) (d : nat) indexes,
+  wf_tree D d0 merge d t -> (d <= 62)%nat ->
+  indexes <> [] -> zlen indexes <= 255 -> NoDup indexes -> (forall i, In i indexes -> 0 <= i < 2 ^ Z.of_nat d) ->
+  exists p paths, mt_prove_batch D d0 t indexes = Ok p /\ into_paths D merge p indexes = Ok paths /\
+                  from_paths D d0 paths indexes = Ok p.
+Proof. exact (fun t d indexes WF Hd => from_into_roundtrip D D_eqb D_eqb_spec d0 merge t d WF Hd indexes). Qed.
+
 End C10.
 
-Theorem C10_from_into_roundtrip_partial : forall n idx, In (n, idx) roundtrip_cases ->
+(* regression: the round trip evaluated in the kernel VM on the free merge (digests = binary terms), trees with
+   2/4/8 symbolic leaves, 978 duplicate-free position lists incl. every order for <= 4 leaves *)
+Example C10_from_into_roundtrip_free_le8 : forall n idx, In (n, idx) roundtrip_cases ->
   exists t p paths, free_tree n = Ok t /\ mt_prove_batch FT (FL (-1)) t idx = Ok p /\
     into_paths FT FN p idx = Ok paths /\ from_paths FT (FL (-1)) paths idx = Ok p.
 Proof. exact from_into_roundtrip_free_le8. Qed.
@@ -239,7 +250,8 @@ Print Assumptions C10_batch_binding.
 Print Assumptions C10_batch_binding_verify_batch.
 Print Assumptions C10_batch_binding_two.
 Print Assumptions C10_into_paths_spec.
-Print Assumptions C10_from_into_roundtrip_partial.
+Print Assumptions C10_from_paths_of_proves.
+Print Assumptions C10_from_into_roundtrip.
 
 (* Non-vacuity: concrete instances satisfying the hypotheses of the theorems above (Proofs/MerkleExamples.v):
    ex_new/ex_single_hyps/ex_single_run (single_complete), ex_binding_hyps/ex_binding_deep (single_binding with
